@@ -23,3 +23,11 @@ UNITS["tree_lemmas"] = {
     "overlays": [],
     "doc": "lemmas of the tree-level specification (no repo code): lp2, pairwise, split, covers",
 }
+
+UNITS["tree"] = {
+    "files": CRATE_FILES,
+    "prelude": _p("prelude/core.rs", "prelude/deps.rs", "prelude/kernels.rs"),
+    "spec": _p("spec/blake3_spec.rs", "spec/tree_spec.rs"),
+    "overlays": _p("contracts/compress.vc", "contracts/chunk.vc", "contracts/tree.vc"),
+    "doc": "tree hashing: compress_chunks/parents_parallel, compress_subtree_wide, hash_all_at_once, hash/keyed_hash/derive_key",
+}
